@@ -89,6 +89,10 @@ NOTES = {
              "environment reaches the changed row — not expected to be caught.",
     "C03_g": "needs autobahn's Disconnected to escape from _tx into Boss.S_send; fix 335dc48 (found through this seed's scenario) "
              "removes that exception, so the reordered counter bump is unobservable on the repaired tree — not expected to be caught.",
+    "C08_g": "trigger is the APPLICATION's own wormhole_got_welcome handler raising WelcomeError (an undocumented hook, marked TODO "
+             "in Boss.rx_welcome), not something the server said; the environment of C08/C14 has applications that only make the "
+             "documented API calls — outside the environment, kept for the record (its author flagged it as borderline).",
+    "C14_i": "a third change the C14 round-4 author left as a spare (RendezvousConnector.stop() clears _ws).",
     "C04_a": "transit replay acceptance: caught by C06 (the channel property C04 builds on).",
 }
 
